@@ -1,8 +1,8 @@
 """Unit active_peers (Verus): the active-peer set of network/connection_manager.rs.
 
 Functions under contract: ActivePeersInner::{new, subscribe, len, get, contains, remove, remove_with_stable_id,
-send_event, add, simultaneous_dial_tie_breaking}; `peers` is outside Verus' reach (iterator pipeline) and is declared
-external_body with an assumed contract (bounded Kani stand-in: unit kani_peers_bounded).
+send_event, add, simultaneous_dial_tie_breaking, peers}; the iterator pipeline of `peers` (`keys().copied().collect()`) is rendered by the trusted
+shape rule X13 as an assumed generic std function (every key of the map exactly once); `enum_cm` executes the real pipeline.
 Properties: C04 (all clauses, sequential histories), C05 (tie-break + convergence lemmas), C09 (explicit disconnect),
 C03 (add => contains), C10 (len == |dom|).
 """
@@ -307,6 +307,24 @@ impl ActivePeersInner {
 '''
 
 
+KEYS_STANDIN = r'''
+// X13 (trusted shape rule): `<map>.keys().copied().collect()` is rendered as this assumed generic function -- std's HashMap::keys yields every key of
+// the map exactly once, `copied` and `collect` into a Vec keep them all in that order
+#[verifier::external_body]
+pub fn hashmap_keys_copied_collect<K: Copy, V>(m: &HashMap<K, V>) -> (r: Vec<K>)
+    ensures r@.to_set() =~= m@.dom(), r@.no_duplicates(),
+{ unimplemented!() }
+'''
+
+
+def keys_pipeline(e):
+    """X13: `<recv>.keys().copied().collect()` -> hashmap_keys_copied_collect(&<recv>)"""
+    t2, k = re.subn(r'(\bself\s*\.\s*\w+)\s*\.\s*keys\(\)\s*\.\s*copied\(\)\s*\.\s*collect\(\)', lambda m: 'hashmap_keys_copied_collect(&%s)' % re.sub(r'\s+', '', m.group(1)), e.text)
+    if k:
+        e.text = t2
+        e.log('X13', '`.keys().copied().collect()` rendered as the assumed generic function hashmap_keys_copied_collect (x%d)' % k)
+
+
 def build(ctx):
     C = ctx
     t = P.HEADER
@@ -318,7 +336,7 @@ def build(ctx):
         ('X5', 'broadcast::Sender<PeerEvent>', 'Sender', 1),
         ('X7', r'\}\s*$', '    pub closed: Ghost<Seq<usize>>,\n}', 1, True),
     ])
-    t += SPEC
+    t += SPEC + KEYS_STANDIN
     t += 'impl ActivePeersInner {\n'
 
     t += C.fn(CM, 'impl ActivePeersInner :: fn new', 'ActivePeersInner::new', ['C04'], optional=True, ret='r', spec='''
@@ -328,12 +346,11 @@ def build(ctx):
                ('X5', 'Default::default()', 'HashMap::new()', 1)],
         body_prefix='\n        broadcast use axiom_peer_id_key;\n')
 
-    t += C.fn(CM, 'impl ActivePeersInner :: fn peers', 'ActivePeersInner::peers', [], optional=True, ret='r', spec='''
+    t += C.fn(CM, 'impl ActivePeersInner :: fn peers', 'ActivePeersInner::peers', ['C04', 'C09'], optional=True, ret='r', transforms=[keys_pipeline], spec='''
     ensures
-        r@.to_set() =~= self.connections@.dom(),
-        r@.no_duplicates(),
-''', attrs='#[verifier::external_body] // ASSUMED: keys().copied().collect() is outside Verus; bounded Kani stand-in in unit kani_peers_bounded\n',
-        probe=False, prose='ASSUMED (external_body)')
+        r@.to_set() =~= self.connections@.dom(), // @OBL ActivePeersInner::peers::listing_is_the_connected_set [C04,C09] the connected-peer listing names exactly the peers that have a live connection: nobody else, nobody missing
+        r@.no_duplicates(), // @OBL ActivePeersInner::peers::listing_no_duplicates [C04,C05] and names nobody twice
+''')
 
     t += C.fn(CM, 'impl ActivePeersInner :: fn subscribe', 'ActivePeersInner::subscribe', ['C04'], optional=True, ret='r', spec='''
     ensures
@@ -429,6 +446,12 @@ impl ActivePeers {
         final(self).1@ == old(self).1@ + 1, // @OBL ActivePeers::len::one_critical_section [C04,C06] the whole operation is ONE critical section: exactly one lock acquisition (no check-then-act across two); in particular the lock is never taken a second time while it is held (std RwLock: a recursive read deadlocks as soon as a writer queues between the two)
         final(self).0 == old(self).0, // @OBL ActivePeers::len::read_only [C04] a read operation changes nothing in the set
         r == old(self).0.connections@.dom().len(), // @OBL ActivePeers::len::delegates [C04,C10] len() is the size of the locked set
+""")
+    t += C.fn(CM, W + 'peers', 'ActivePeers::peers', ['C04', 'C09'], optional=True, ret='r', sig_rewrites=[('&self', '&mut self')], spec="""
+    ensures
+        final(self).1@ == old(self).1@ + 1, // @OBL ActivePeers::peers::one_critical_section [C04,C06] the whole operation is ONE critical section: exactly one lock acquisition; the listing is a snapshot of one instant
+        final(self).0 == old(self).0, // @OBL ActivePeers::peers::read_only [C04] a read operation changes nothing in the set
+        r@.to_set() =~= old(self).0.connections@.dom() && r@.no_duplicates(), // @OBL ActivePeers::peers::delegates [C04,C05,C09] peers() lists exactly the peers with a live connection in the locked set, each once
 """)
     t += C.fn(CM, W + 'remove', 'ActivePeers::remove', ['C04', 'C09'], optional=True, sig_rewrites=[('&self', '&mut self')], spec="""
     ensures
